@@ -805,6 +805,25 @@ class Assembler:
                 kb = fp.stmt_end(ka) - 1
                 if kb < ka or not s.is_p(kb + 1, ';'):
                     raise ExtractError('lost anchor: initializer of `let %s` in fn %s' % (ab['let'], fnname))
+            elif 'call' in ab:
+                # 15c: only the CALLEE of a path call is replaced -- `f(args)` becomes `as(<first>, args)`: the arguments stay the
+                # real text and are checked against the stand-in's contract (an edit to an argument is decided, not a lost anchor)
+                ka, kb = fp.find_stmt(ab['call'] + '(', ab.get('n', 0))
+                if s.is_p(ka - 1, '.') or s.is_p(ka - 1, '::'):
+                    raise ExtractError('lost anchor: call `%s(` in fn %s is not a plain path call' % (ab['call'], fnname))
+                first = ab.get('first', '')
+                if spec.get('journal_param'):
+                    first = first.replace('&mut verif_journal', '&mut *verif_journal')
+                ed.replace(s.t[ka][1], s.t[kb][2], ab['as'] + '(' + (first + ', ' if first else ''))
+                self.assumed.append({'function': '%s :: callee `%s` replaced by %s' % (fnname, ab['call'], ab['as']),
+                                     'sha256': hashlib.sha256(ab['call'].encode()).hexdigest(), 'proved_in': None})
+                self.fired.add('15c:replace-callee')
+                continue
+            elif 'whole_call' in ab:
+                # the whole call expression `f( .. )` named by its callee (arguments included, whatever they are; the replaced
+                # text is pinned by hash like a let-form): for calls whose argument is outside the subset, e.g. an async block
+                ka, kq = fp.find_stmt(ab['whole_call'] + '(', ab.get('n', 0))
+                kb = s.match()[kq]
             else:
                 ka, kb = fp.find_stmt(ab['expr'], ab.get('n', 0))
             orig = s.text[s.t[ka][1]:s.t[kb][2]]
